@@ -14,7 +14,8 @@ C13 — line-protocol driver of the drop model (core only).
   tagkeys <mst> <pred>                         → tk k,k
   tagvals <mst> <pred>                         → tv k=v+v;k=v
   card <mst> <pred|*>                          → n <k>     (`*` = no condition)
-  cat <dbcreate|dbmark|dbdrop|rpcreate|rpmark|rpdrop|mcreate n|mmark n|mdrop p|resolve n> → ok | name p | err e
+  tvcard <mst> <pred>                          → n <k>     (distinct tag values of the keys)
+  cat <dbcreate|dbmark|dbdrop|rpcreate|rpmark|rpdrop|mcreate n|mmark n|mdrop p|resolve n|addfield n f|fieldkeys n|msts> → ok | name p | fk k,k | msts n,n | err e
   purge                                        → ok | err parts-in-merge
   imerge | mbegin <entry,entry…>               → ok <n>    (the parts that hold these series entries are merged / taken by a merger; n = parts taken)
   mend                                         → ok
@@ -172,6 +173,10 @@ def catStep (c : Cat) : List String → Cat × String
   | ["mmark", n] => match c.mMark n with | .ok c' => (c', "ok") | .error e => (c, "err " ++ e.text)
   | ["mdrop", p] => match c.mDrop p with | .ok c' => (c', "ok") | .error e => (c, "err " ++ e.text)
   | ["resolve", n] => match c.resolve n with | .ok p => (c, "name " ++ p) | .error e => (c, "err " ++ e.text)
+  | ["addfield", n, f] => match c.addField n f with | .ok c' => (c', "ok") | .error e => (c, "err " ++ e.text)
+  | ["fieldkeys", n] => match c.fieldKeys n with
+    | .ok ks => (c, "fk " ++ String.intercalate "," ks) | .error e => (c, "err " ++ e.text)
+  | ["msts"] => (c, "msts " ++ String.intercalate "," (c.measurements.foldr insertStr []))
   | _ => (c, "bad-op")
 
 def mergeStep (d : DSt) (whole : Bool) (es : String) : DSt × String :=
@@ -252,6 +257,10 @@ def step (d : DSt) (line : String) : DSt × String :=
     match parsePred p with
     | some p => (d, "tv " ++ String.intercalate ";" ((st.tagVals U m ["host", "zone"] p).map fun (k, vs) =>
         k ++ "=" ++ String.intercalate "+" vs))
+    | none => (d, "bad-op")
+  | ["tvcard", m, p] =>
+    match parsePred p with
+    | some p => (d, "n " ++ toString (st.tagValCard U m ["host", "zone"] p))
     | none => (d, "bad-op")
   | ["card", m, p] =>
     if p == "*" then (d, "n " ++ toString (st.card U m none))
